@@ -168,6 +168,9 @@ class CaseTag(Tag):
         while stream.is_tag("when"):
             alternative_token = stream.current()
             assert isinstance(alternative_token, TagToken)
+            # Whitespace control for the start of this block comes from its own tag,
+            # not from the `case` tag.
+            stream.trim_carry = alternative_token.wc[-1]
 
             expressions = self._parse_when_expression(stream.into_inner())
             alternative_block_token = stream.current()
@@ -183,6 +186,8 @@ class CaseTag(Tag):
 
         if stream.is_tag("else"):
             alternative_token = stream.next()
+            assert isinstance(alternative_token, TagToken)
+            stream.trim_carry = alternative_token.wc[-1]
             alternative_block = parse_block(stream, self.end_block)
             default = BlockNode(alternative_token, alternative_block)
 
